@@ -42,6 +42,7 @@ from rzilcompiler.Transformer.ValueType import (
     get_value_type_by_c_number,
     VTGroup,
     promoted_type,
+    wrap_to_type,
 )
 from rzilcompiler.Transformer.Effects.Assignment import Assignment, AssignmentType
 from rzilcompiler.Transformer.Pures.ArithmeticOp import ArithmeticOp, ArithmeticType
@@ -1187,10 +1188,12 @@ class RZILTransformer(Transformer):
         if not isinstance(a.get_val(), int) or not isinstance(b.get_val(), int):
             return None
 
-        val_a = a.get_val()
-        val_b = b.get_val()
-        self.il_ops_holder.rm_op_by_name(a.get_name())
-        self.il_ops_holder.rm_op_by_name(b.get_name())
+        # The operation is done in the common type of the promoted operands.
+        a_type, b_type = c11_cast(
+            promoted_type(a.value_type), promoted_type(b.value_type)
+        )
+        val_a = wrap_to_type(a.get_val(), a_type)
+        val_b = wrap_to_type(b.get_val(), a_type)
         match operation:
             case "+":
                 result = val_a + val_b
@@ -1199,10 +1202,16 @@ class RZILTransformer(Transformer):
             case "*":
                 result = val_a * val_b
             case "/":
-                result = val_a / val_b
+                if val_b == 0 or val_a % val_b != 0:
+                    raise NotImplementedError(
+                        f"Can not simplify {val_a} / {val_b} to an integer."
+                    )
+                result = val_a // val_b
             case _:
                 raise NotImplementedError(f"Can not simplify '{operation}' expression.")
-        a_type, b_type = c11_cast(a.value_type, b.value_type)
+        result = wrap_to_type(result, a_type)
+        self.il_ops_holder.rm_op_by_name(a.get_name())
+        self.il_ops_holder.rm_op_by_name(b.get_name())
 
         name = f'const_{"neg" if items[0] == "-" else "pos"}{items[1]}{items[2] if items[2] else ""}'
         return Number(name, result, a_type)
@@ -1222,8 +1231,12 @@ class RZILTransformer(Transformer):
         if not isinstance(a.get_val(), int) or not isinstance(b.get_val(), int):
             return None
 
-        val_a = a.get_val()
-        val_b = b.get_val()
+        # The operands are compared in the common type of the promoted operands.
+        common_type, _ = c11_cast(
+            promoted_type(a.value_type), promoted_type(b.value_type)
+        )
+        val_a = wrap_to_type(a.get_val(), common_type)
+        val_b = wrap_to_type(b.get_val(), common_type)
         self.il_ops_holder.rm_op_by_name(a.get_name())
         self.il_ops_holder.rm_op_by_name(b.get_name())
         match operation:
